@@ -163,7 +163,7 @@ class C02(Sim):
             "non-trivial = >= 1 build and >= 1 observation or re-wrap of a mesh with at least edges")
     FAULT_KINDS = ["rewrap", "config_flip"]
     PROBES = ["invalid_edge_filtered", "dense_edge_attr", "sparse_edge_attr", "numpy_flavour", "tuple_flavour", "hex_cells", "tet_cells",
-              "declared_faces_on_volume", "polygon_face", "file_path", "from_arrays_path", "rewrap", "switch_off_build", "query_script", "2d_padded"]
+              "declared_faces_on_volume", "polygon_face", "file_path", "from_arrays_path", "rewrap", "switch_off_build", "query_script", "2d_padded", "peek_dimensionality"]
     QUICK_RUNS = 4000
     THOROUGH_RUNS = 400000
     BLOCK = 40
@@ -240,7 +240,8 @@ class C02(Sim):
         if c == "builder" or not self.slots:
             path = r.choice(self._paths())
             fl = r.choice(cfg["flavours"]) if path in ("raw_class", "instanciate") else ("numpy" if path == "from_arrays" else "file")
-            return {"c": "builder", "op": "build", "path": path, "flavour": fl, "slot": "m%d" % self.nbuild, "pad2d": r.chance(0.5)}
+            return {"c": "builder", "op": "build", "path": path, "flavour": fl, "slot": "m%d" % self.nbuild, "pad2d": r.chance(0.5),
+                    "peek": r.choice([None, None, "early", "late"])}
         slot = r.choice(sorted(self.slots))
         if c == "rewrapper":
             return {"c": c, "op": r.choice(["rewrap_same_class", "rewrap_instanciate", "prepare_again"]), "slot": slot, "dst": slot + "r"}
@@ -259,11 +260,15 @@ class C02(Sim):
         return True
 
     # ------------------------------------------------------------------ building
-    def _fill_raw(self, flavour):
+    def _fill_raw(self, flavour, peek=None):
+        """peek: the caller reads the (lazily cached) dimensionality of the raw data while filling it - a legal history"""
         from mouette.mesh.mesh_data import RawMeshData
         s = self.spec
         d = RawMeshData()
         d.vertices += rows(s["points"], flavour)
+        if peek == "early":
+            d.dimensionality
+            self.probes["peek_dimensionality"] += 1
         if s["edges"]:
             d.edges += rows(s["edges"], flavour)
         if s["eattr"]:
@@ -276,6 +281,9 @@ class C02(Sim):
             d.faces += rows(s["faces"], flavour)
         if s["cells"]:
             d.cells += rows(s["cells"], flavour)
+        if peek == "late":
+            d.dimensionality
+            self.probes["peek_dimensionality"] += 1
         return d
 
     def _build(self, ev, normal):
@@ -283,11 +291,11 @@ class C02(Sim):
         path, fl = ev["path"], ev["flavour"]
         s = self.spec
         if path == "raw_class":
-            d = self._fill_raw(fl)
+            d = self._fill_raw(fl, ev.get("peek"))
             cls = getattr(M.mesh, normal.class_name)
             return call(cls, d)
         if path == "instanciate":
-            d = self._fill_raw(fl)
+            d = self._fill_raw(fl, ev.get("peek"))
             return call(M.mesh.mesh._instanciate_raw_mesh_data, d)
         if path == "from_arrays":
             self.probes["from_arrays_path"] += 1
